@@ -266,11 +266,11 @@ func init() {
 			}
 		}
 	}
-	scenarios := []string{"S1-where", "S1-select", "S1-all", "S1-now", "S1-env", "S1-isas", "S1-arith", "S1-custom", "S1-custom-nested", "S2-compile-addfunction", "S3-patch-shared-expression", "S4-evaluate-vs-compile-experimental", "S5-three-threads", "S6-division-scales", "S6-division-decimal", "S6-conversions", "S6-types", "S6-strings"}
+	scenarios := []string{"S1-where", "S1-select", "S1-all", "S1-now", "S1-env", "S1-isas", "S1-arith", "S1-custom", "S1-custom-nested", "S2-compile-addfunction", "S3-patch-shared-expression", "S4-evaluate-vs-compile-experimental", "S5-three-threads", "S6-division-scales", "S6-division-decimal", "S6-conversions", "S6-types", "S6-strings", "S7-microsecond-elements"}
 
 	core.Register(&core.Check{
 		ID:          "C04",
-		Rule:        "schedules: preemption-bounded depth-first exploration (bound 2 quick / 3 thorough, iterated 0,1,2,...) of every interleaving of 2-3 threads at the scheduling points the instrumenter inserts at every function entry, loop iteration and package-level variable access of the current tree (controlled cooperative scheduler, executions run to completion, prefix replay checked), for 18 scenarios (shared compiled expression x shared resource for every node kind, different expressions side by side (divisions at different scales, conversions, type tests, regular expressions), custom functions incl. nested calls, Compile with AddFunction/WithExperimentalFuncs in parallel, a shared patch expression on two resources, 3 threads); per execution: each thread's observation equals its isolated observation, no write to a package-level variable, inputs unchanged. Compile histories: every sequence of length <=3 (quick) / <=4 (thorough) over a 13-call alphabet (plain, AddFunction fresh/again/built-in name/experimental name, WithExperimentalFuncs, Permissive, patch.Compile, Transform): the observable Compile state (probe programs + reflective table snapshot) never leaves the initial state and each call's outcome equals its outcome in the empty history. Evaluate histories: every sequence of length <=2 (quick) / <=3 (thorough) over 112 (expression, resource, options) evaluations (4 inputs incl. a Patient with a contained resource), two of them over a caller-owned collection that the whole history shares; in a second pass the caller overwrites every returned collection and edits returned copies, and later results must be unaffected on shared compiled expressions: each result equals the isolated result and earlier results are unchanged afterwards. Process histories: every rotation of a 170-odd element alphabet, one fresh process each, so that every ordered pair of calls occurs with the first before the second; each outcome must equal the outcome of that call as the first call of a fresh process (catches process-wide memo tables and caches keyed too coarsely). Clock: now()/today()/timeOfDay() programs x 14 override instants (incl. the zero time) denote exactly the override; the whole date/time battery gives identical results under TZ in {UTC, Asia/Kolkata, America/St_Johns, Pacific/Chatham}. A free-running -race pass of the scenario bodies (a sample of OS schedules, labelled as such) can only add violations; non-trivial = distinct (history | schedule, observation vector)",
+		Rule:        "schedules: preemption-bounded depth-first exploration (bound 2 quick / 3 thorough, iterated 0,1,2,...) of every interleaving of 2-3 threads at the scheduling points the instrumenter inserts at every function entry, loop iteration and package-level variable access of the current tree (controlled cooperative scheduler, executions run to completion, prefix replay checked), for 19 scenarios (shared compiled expression x shared resource for every node kind, different expressions side by side (divisions at different scales, conversions, type tests, regular expressions), custom functions incl. nested calls, Compile with AddFunction/WithExperimentalFuncs in parallel, a shared patch expression on two resources, 3 threads); per execution: each thread's observation equals its isolated observation, no write to a package-level variable, inputs unchanged. Compile histories: every sequence of length <=3 (quick) / <=4 (thorough) over a 13-call alphabet (plain, AddFunction fresh/again/built-in name/experimental name, WithExperimentalFuncs, Permissive, patch.Compile, Transform): the observable Compile state (probe programs + reflective table snapshot) never leaves the initial state and each call's outcome equals its outcome in the empty history. Evaluate histories: every sequence of length <=2 (quick) / <=3 (thorough) over 112 (expression, resource, options) evaluations (4 inputs incl. a Patient with a contained resource), two of them over a caller-owned collection that the whole history shares; in a second pass the caller overwrites every returned collection and edits returned copies, and later results must be unaffected on shared compiled expressions: each result equals the isolated result and earlier results are unchanged afterwards. Process histories: every rotation of a 170-odd element alphabet, one fresh process each, so that every ordered pair of calls occurs with the first before the second; each outcome must equal the outcome of that call as the first call of a fresh process (catches process-wide memo tables and caches keyed too coarsely). Clock: now()/today()/timeOfDay() programs x 14 override instants (incl. the zero time) denote exactly the override; the whole date/time battery gives identical results under TZ in {UTC, Asia/Kolkata, America/St_Johns, Pacific/Chatham}. A free-running -race pass of the scenario bodies (a sample of OS schedules, labelled as such) can only add violations; non-trivial = distinct (history | schedule, observation vector)",
 		Assumptions: []string{"scheduling points are function entries, loop iterations and package-variable accesses; finer-grained unsynchronised accesses are only seen by the free-running -race pass", "more than 3 threads and more than 3 preemptions are not explored"},
 		Subs: func(tier string) []core.Sub {
 			histLen, evLen := 3, 2
